@@ -49,8 +49,11 @@ Definition enumerate {A} (l : list A) : list (nat * A) := combine (seq 0 (length
    i mod 2^32, resp. i mod 2^16) *)
 Definition wrap32 (i : nat) : nat :=
   if (N.of_nat i <? 4294967296)%N then i else N.to_nat (N.modulo (N.of_nat i) 4294967296).
+(* 2^16 as a unary number, computed once (the test [two16 <=? i] walks down both numbers
+   without allocating, which keeps the model usable on matrices of 65536 rows) *)
+Definition two16 : nat := Nat.pow 2 16.
 Definition wrap16 (i : nat) : nat :=
-  if (N.of_nat i <? 65536)%N then i else N.to_nat (N.modulo (N.of_nat i) 65536).
+  if Nat.leb two16 i then N.to_nat (N.modulo (N.of_nat i) 65536) else i.
 
 Inductive arm := AGeneric | ASse2 | AAvx2.
 
